@@ -35,24 +35,54 @@ def same_up_to_ties(a, b, keys):
     return [cls(f) for f in a] == [cls(f) for f in b]
 
 
-def check_case(rng, stats):
-    task = rng.choice(["classification", "classification", "regression"])
-    X, y, quant, qual = selgen.gen_frame(rng, task)
-    # a copy of the target / a strictly monotone function of it among the quantitative features (and a qualitative copy)
-    copy_kind = rng.choice(["none", "copy", "monotone", "qual_copy"])
-    yv = np.asarray(y.tolist(), dtype=float)
-    if copy_kind == "copy":
-        X["q_copy"] = yv; quant = quant + ["q_copy"]
-    elif copy_kind == "monotone":
-        X["q_copy"] = 2.0 ** (yv / 4) if task == "regression" else yv * 8.0 + 3.0
-        quant = quant + ["q_copy"]
-    elif copy_kind == "qual_copy" and task == "classification":
-        X["k_copy"] = ["cls" + str(v) for v in y.tolist()]; qual = qual + ["k_copy"]
-    cfg = selgen.gen_config(rng, task, quant, qual)
-    if copy_kind != "none":
-        cfg["n_best"] = max(cfg["n_best"], 1)
-    case = {"task": task, "cfg": {k: v for k, v in cfg.items() if k != "kw"}, "copy": copy_kind,
-            "X": {c: [None if (isinstance(v, float) and math.isnan(v)) else v for v in X[c].tolist()] for c in X.columns}, "y": y.tolist()}
+def frame_of(case):
+    X = pd.DataFrame({c: [np.nan if v is None else v for v in vs] for c, vs in case["X"].items()})
+    y = pd.Series(case["y"], index=X.index, name="target")
+    return X, y, [c for c in X.columns if c.startswith("q")], [c for c in X.columns if c.startswith("k")]
+
+
+def gen_reencoding(rng, kind, X, quant, qual):
+    """parameters of one re-encoding (stored in the replay so that it can be re-applied)"""
+    if kind == "negate" and quant:
+        return {"features": rng.sample(quant, rng.randint(1, len(quant)))}
+    if kind == "rescale" and quant:
+        fs = rng.sample(quant, rng.randint(1, len(quant)))
+        return {"features": fs, "factors": [rng.choice([2.0, 0.25, 1024.0]) for _ in fs]}
+    if kind == "rename" and qual:
+        return {}
+    if kind == "rows":
+        perm = list(range(len(X))); rng.shuffle(perm)
+        return {"perm": perm}
+    if kind == "columns":
+        cols = list(X.columns); rng.shuffle(cols)
+        q2, k2 = list(quant), list(qual); rng.shuffle(q2); rng.shuffle(k2)
+        return {"columns": cols, "quant": q2, "qual": k2}
+    return None
+
+
+def apply_reencoding(kind, par, X, y, quant, qual):
+    X2, y2, q2, k2 = X.copy(), y.copy(), list(quant), list(qual)
+    if kind == "negate":
+        for f in par["features"]:
+            X2[f] = -X2[f]
+    elif kind == "rescale":
+        for f, a in zip(par["features"], par["factors"]):
+            X2[f] = X2[f] * a
+    elif kind == "rename":
+        for f in qual:
+            m = {v: f"r{i}_{v}" for i, v in enumerate(sorted(set(X2[f].tolist()), reverse=True))}
+            X2[f] = X2[f].map(m)
+    elif kind == "rows":
+        X2, y2 = X.iloc[par["perm"]], y.iloc[par["perm"]]
+    elif kind == "columns":
+        X2, q2, k2 = X[par["columns"]], list(par["quant"]), list(par["qual"])
+    return X2, y2, q2, k2
+
+
+def eval_case(case, cfg, reencodings, stats):
+    """the checks of the property on one stored case: target copies returned, selection unchanged by each re-encoding"""
+    task, copy_kind = case["task"], case["copy"]
+    X, y, quant, qual = frame_of(case)
     regression_distance = task == "regression" and cfg["names"]["quant_measure"] == "distance_measure"
     fails = []
 
@@ -73,37 +103,73 @@ def check_case(rng, stats):
         fail("a feature that is a copy of (or strictly monotone in) the target is not returned", returned=base, copy=copy_kind)
     if copy_kind == "qual_copy" and task == "classification" and "k_copy" not in base:
         fail("a qualitative copy of the target is not returned", returned=base, quant_only=False)
-    # re-encodings
-    for kind in rng.sample(["negate", "rescale", "rename", "rows", "columns"], 3):
-        X2, y2, q2, k2 = X.copy(), y.copy(), list(quant), list(qual)
-        if kind == "negate" and quant:
-            for f in rng.sample(quant, rng.randint(1, len(quant))):
-                X2[f] = -X2[f]
-        elif kind == "rescale" and quant:
-            for f in rng.sample(quant, rng.randint(1, len(quant))):
-                X2[f] = X2[f] * rng.choice([2.0, 0.25, 1024.0])
-        elif kind == "rename" and qual:
-            for f in qual:
-                m = {v: f"r{i}_{v}" for i, v in enumerate(sorted(set(X2[f].tolist()), reverse=True))}
-                X2[f] = X2[f].map(m)
-        elif kind == "rows":
-            perm = list(range(len(X))); rng.shuffle(perm)
-            X2, y2 = X.iloc[perm], y.iloc[perm]
-        elif kind == "columns":
-            cols = list(X.columns); rng.shuffle(cols); X2 = X[cols]; rng.shuffle(q2); rng.shuffle(k2)
-        else:
-            continue
+    for kind, par in reencodings:
+        X2, y2, q2, k2 = apply_reencoding(kind, par, X, y, quant, qual)
         stats["pairs"] += 1
         stats["kinds"][kind] = stats["kinds"].get(kind, 0) + 1
         try:
             res2, _ = run_select(task, cfg, X2, y2, q2, k2)
         except Exception as e:
-            fail(f"select raised {type(e).__name__} after the re-encoding '{kind}'", error=str(e)[:200])
+            fail(f"select raised {type(e).__name__} after the re-encoding '{kind}'", error=str(e)[:200], transformation=kind, parameters=par)
             continue
         if not same_up_to_ties(base, res2, keys):
-            fail(f"the returned features (or their order) change under '{kind}'", original=base, re_encoded=res2, transformation=kind,
+            fail(f"the returned features (or their order) change under '{kind}'", original=base, re_encoded=res2, transformation=kind, parameters=par,
                  quant_only=(kind in ("negate", "rescale")))
     return fails
+
+
+def check_case(rng, stats):
+    task = rng.choice(["classification", "classification", "regression"])
+    X, y, quant, qual = selgen.gen_frame(rng, task)
+    # a copy of the target / a strictly monotone function of it among the quantitative features (and a qualitative copy)
+    copy_kind = rng.choice(["none", "copy", "monotone", "qual_copy"])
+    yv = np.asarray(y.tolist(), dtype=float)
+    if copy_kind == "copy":
+        X["q_copy"] = yv; quant = quant + ["q_copy"]
+    elif copy_kind == "monotone":
+        X["q_copy"] = 2.0 ** (yv / 4) if task == "regression" else yv * 8.0 + 3.0
+        quant = quant + ["q_copy"]
+    elif copy_kind == "qual_copy" and task == "classification":
+        X["k_copy"] = ["cls" + str(v) for v in y.tolist()]; qual = qual + ["k_copy"]
+    cfg = selgen.gen_config(rng, task, quant, qual)
+    if copy_kind != "none":
+        cfg["n_best"] = max(cfg["n_best"], 1)
+    case = {"task": task, "cfg": {k: v for k, v in cfg.items() if k != "kw"}, "copy": copy_kind,
+            "X": {c: [None if (isinstance(v, float) and math.isnan(v)) else v for v in X[c].tolist()] for c in X.columns}, "y": y.tolist()}
+    res = []
+    for kind in rng.sample(["negate", "rescale", "rename", "rows", "columns"], 3):
+        par = gen_reencoding(rng, kind, X, quant, qual)
+        if par is not None:
+            res.append((kind, par))
+    return eval_case(case, cfg, res, stats)
+
+
+def stored(j):
+    """(case, cfg, re-encodings) of a replay file or corpus entry"""
+    case = j["case"]
+    cfg = dict(case["cfg"]); cfg["kw"] = selgen.kw_from_names(case["task"], cfg["names"])
+    res = [(j["transformation"], j["parameters"])] if j.get("transformation") and j.get("parameters") is not None else []
+    return case, cfg, res
+
+
+def corpus_cases():
+    import os
+    d = os.path.join(core.ROOT, "corpus", "C15")
+    return [(n, json.load(open(os.path.join(d, n)))) for n in sorted(os.listdir(d)) if n.endswith(".json")] if os.path.isdir(d) else []
+
+
+def replay(path):
+    core.import_repo()
+    stats = {"cases": 0, "pairs": 0, "kinds": {}}
+    fails = eval_case(*stored(json.load(open(path))), stats)
+    print(json.dumps([{k: v for k, v in f.items() if k != "case"} for f in fails], indent=1, default=str)[:4000])
+    known = core.load_known_findings("C15")
+    new = [f for f in fails if not matcher(f, known)]
+    if new:
+        print(f"VIOLATION property=C15 replay={path}")
+        return 1
+    print("replay passes on the current tree" + (" (known findings only)" if fails else ""))
+    return 0
 
 
 def worker(args):
@@ -112,6 +178,13 @@ def worker(args):
     rng = random.Random(seed)
     fails, sample = [], None
     stats = {"cases": 0, "pairs": 0, "kinds": {}}
+    if n == -1:
+        # minimised past failures run first
+        for name, j in corpus_cases():
+            for f in eval_case(*stored(j), stats):
+                f["corpus"] = name
+                fails.append(f)
+        return fails[:8], len(fails), stats, sample, len(corpus_cases())
     for _ in range(n):
         fails += check_case(rng, stats)
     return fails[:8], len(fails), stats, sample, stats["cases"]
@@ -125,7 +198,7 @@ def matcher(f, known):
 
 
 def main(tier, seed):
-    return c04.main(tier, seed, prop="C15", worker_fn=worker, matcher_fn=matcher,
+    return c04.main(tier, seed, prop="C15", worker_fn=worker, matcher_fn=matcher, corpus_task=True,
                     rule="frames and configurations as in C14, optionally with a feature that is an exact copy of the target, a strictly monotone function of it, or a qualitative copy; "
                          "the selection is recomputed after three of: negation of some quantitative features, rescaling by a power of two, renaming (and re-ordering) of categories, row "
                          "permutation, column / feature-list permutation; lists must be equal up to swaps of tied neighbours, target copies must be returned. distinct = cases",
